@@ -1,6 +1,7 @@
 import MesaModel.Proofs.Signals
 import MesaModel.Proofs.SignalsReentrant
 import MesaModel.Proofs.SignalsSlices
+import MesaModel.Proofs.SignalsSrc
 /-!
 # C16 — signals describe every change exactly once, to exactly the subscribers
 
@@ -457,6 +458,46 @@ theorem C16_clear_signals (n : Nat) (d : List Int) :
 example : specAppends 1 2 [7, 8] = [⟨1, .append, .none, .int 7, .int 2⟩, ⟨1, .append, .none, .int 8, .int 3⟩] := by decide
 example : specClears 1 [4, 5, 6] = [⟨1, .remove, .int 6, .none, .int (-1)⟩, ⟨1, .remove, .int 5, .none, .int (-1)⟩,
     ⟨1, .remove, .int 4, .none, .int (-1)⟩] := by decide
+
+/-! ### `extend` / `+=` from an iterable that raises part-way (`Model/SignalsSrc.lean`) -/
+
+/-- **`extend(src)` where `src` yields `vs[0..k)` and then raises**: the items taken from the iterable before it raised
+    — and only they — are in the list, each of them was announced by one `append` (item, index at which it arrived),
+    in order, nothing else was signalled; the exception comes out exactly when the iterable raised (`k < len(vs)`); and
+    a listener that applies these signals to its copy has the real list although the call did not complete. -/
+theorem C16_extend_failing_source (n : Nat) (d vs : List Int) (k : Nat) :
+    mExtendSrc n d vs k [] = ((d ++ vs.take k, specAppends n d.length (vs.take k)), decide (k < vs.length)) ∧
+    replay d (mExtendSrc n d vs k []).1.2 = some (mExtendSrc n d vs k []).1.1 := by
+  have h := mExtendSrc_acc n vs d k []
+  simp only [List.nil_append] at h
+  exact ⟨h, by rw [h]; exact replay_specAppends n (vs.take k) d⟩
+
+/-- **On the machine** (any state, any handlers): `extend` / `+=` from such an iterable is `extend` of the items it
+    yielded before it raised (state and deliveries; for `+=` no `change` follows, the assignment is not reached); if it
+    does not raise, it is the plain `extend` / `+=`.  So every theorem about histories above covers histories
+    containing such calls. -/
+theorem C16_failing_source_is_extend_of_consumed (progs : Nat → List Act) (s : St) (iadd : Bool) (n : Nat)
+    (vs : List Int) (k : Nat) :
+    stepSrcR progs s iadd n vs k =
+      if k < vs.length then
+        ((stepR progs s (.lextend n (vs.take k))).1, (stepR progs s (.lextend n (vs.take k))).2, (s.lists n).isSome)
+      else
+        ((stepR progs s (if iadd then .liadd n vs else .lextend n vs)).1,
+         (stepR progs s (if iadd then .liadd n vs else .lextend n vs)).2, false) := by
+  have h := mExtendSrc_acc n vs
+  have e := mExtend_acc n
+  unfold stepSrcR
+  cases hl : s.lists n with
+  | none => cases iadd <;> simp [stepR, Op.listName, hl]
+  | some d =>
+    by_cases hk : k < vs.length
+    · simp [h, hk, stepR, Op.listName, hl, listOp, mExtend, e]
+    · have ht : vs.take k = vs := List.take_of_length_le (by omega)
+      cases iadd <;> simp [h, hk, ht, stepR, Op.listName, hl, listOp, mExtend, e]
+
+/-- non-vacuity: the iterable breaks after two of four items — two items arrive, two `append`s, the exception comes out -/
+example : mExtendSrc 1 [9] [5, 6, 7, 8] 2 [] =
+    (([9, 5, 6], [⟨1, .append, .none, .int 5, .int 1⟩, ⟨1, .append, .none, .int 6, .int 2⟩]), true) := by decide
 
 /-! ### handlers that subscribe / unsubscribe / clear while they are being notified
 
